@@ -514,7 +514,22 @@ def classify(msg):
     return "multimap-model"
 
 
+MODELLED = [
+    "webob.multidict:MultiDict.__getitem__", "webob.multidict:MultiDict.__setitem__", "webob.multidict:MultiDict.add",
+    "webob.multidict:MultiDict.getall", "webob.multidict:MultiDict.getone", "webob.multidict:MultiDict.mixed",
+    "webob.multidict:MultiDict.dict_of_lists", "webob.multidict:MultiDict.__delitem__", "webob.multidict:MultiDict.__contains__",
+    "webob.multidict:MultiDict.clear", "webob.multidict:MultiDict.copy", "webob.multidict:MultiDict.setdefault",
+    "webob.multidict:MultiDict.pop", "webob.multidict:MultiDict.popitem", "webob.multidict:MultiDict.update",
+    "webob.multidict:MultiDict.extend", "webob.multidict:MultiDict.view_list", "webob.multidict:NestedMultiDict",
+    "webob.headers:ResponseHeaders", "webob.response:Response._headerlist__get", "webob.response:Response._headerlist__set",
+    "webob.response:Response._headerlist__del", "webob.response:Response._headers__get", "webob.response:Response._headers__set",
+]
+ORACLE_ONLY = ["webob.multidict:NoVars", "webob.multidict:GetDict"]
+
+
 def run(ctx):
+    ctx.modelled(MODELLED)
+    ctx.extra["oracle_only"] = ORACLE_ONLY
     ctx.build(["Props/C08.vo"])
     rng = ctx.sub_rng("corr")
     n = ctx.scale(500, 2500)
